@@ -157,6 +157,21 @@ def _run_shard(job):
     return out
 
 
+def _limit_worker():
+    """Address-space limit of a worker (6 GiB in the quick tier, 16 GiB in the thorough one; VERIF_WORKER_GB overrides): code
+    under test that starts allocating without bound (a count read from a
+    hostile file taken at face value ...) gets a MemoryError, which the checks
+    judge like any other exception, instead of taking the machine down."""
+    try:
+        import resource
+        gb = float(os.environ.get('VERIF_WORKER_GB', '16'))
+        if gb > 0:
+            lim = int(gb * (1 << 30))
+            resource.setrlimit(resource.RLIMIT_AS, (lim, lim))
+    except Exception:
+        pass
+
+
 def _uncaught(exc, modname, label, fname, args, r):
     """An exception ended a shard.  If it was raised INSIDE the code under test
     (innermost frame in <repo>/cnfgen) it is something the check does not
@@ -208,6 +223,7 @@ def run_check(modname, tier, seed, workers=None):
     jobs = [(modname, lab, fn, args) for (lab, fn, args) in shards]
     workers = workers or int(os.environ.get('VERIF_WORKERS', '16'))
     workers = max(1, min(workers, len(jobs)))
+    os.environ.setdefault('VERIF_WORKER_GB', '6' if tier == 'quick' else '16')
     results = []
     if workers == 1:
         for j in jobs:
@@ -219,7 +235,7 @@ def run_check(modname, tier, seed, workers=None):
         if hasattr(mod, 'preload'):
             mod.preload()
         ctx = mp.get_context('fork')
-        with ctx.Pool(workers, maxtasksperchild=None) as pool:
+        with ctx.Pool(workers, maxtasksperchild=None, initializer=_limit_worker) as pool:
             for res in pool.imap_unordered(_run_shard, jobs, chunksize=1):
                 results.append(res)
     results.sort(key=lambda r: r['label'])
